@@ -7,7 +7,7 @@ FLOW / AGREE like the others; none matches text, positions or names of locals.
 import re
 
 import anchors
-from core import BA, call_matches, callee_paths, op_local, op_const, const_int, const_str, taint, field_writes
+from core import BA, call_matches, callee_paths, op_local, op_const, const_int, const_str, taint, field_writes, place_fields
 from facts import AnchorError, strip_generics
 from rules import common
 
@@ -2019,9 +2019,32 @@ def arguments_reach_builder_unfiltered(ctx, rid):
             a0 = op_local(t["args"][0]) if t.get("args") else None
             if a0 is not None and (a0 in vt or any(x in vt for x in ba.ref_chain(a0)) or ba.base_local_of_ref(a0) in vecs):
                 bad.append(i)
-        ctx.ob(rid, "%s|argument-vector-never-shrunk" % b.key, not bad, where=ctx.where(b, bad[0]) if bad else b.span,
-               detail="every argument reaches the builder" if not bad else
-               "%s removes entries from the argument vector before the builder has mapped them to records" % common.short(callee_paths(b.blocks[bad[0]]["term"])[0]))
+        # .. nor in a closure of the command that captured the vector (the part of redo-ifchange that records the caller's
+        # dependencies and starts the builder is one)
+        from core import closure_sites as _cs
+        badc = []
+        for (bb_, j_, dl, ck, ops) in _cs(b):
+            cb = prog.bodies.get(ck)
+            if cb is None:
+                continue
+            ups = {k_ for k_, o_ in enumerate(ops) if op_local(o_) is not None and
+                   (op_local(o_) in vt or op_local(o_) in vecs or ba.base_local_of_ref(op_local(o_)) in vecs or any(x in vt for x in ba.ref_chain(op_local(o_))))}
+            if not ups:
+                continue
+            cba = BA.of(cb)
+            ct = common.upvar_taint(cb, ups, mode="direct")
+            for i in cba.all_calls():
+                t = cb.blocks[i]["term"]
+                if not any(_SHRINK.fullmatch(p_) for p_ in callee_paths(t)):
+                    continue
+                a0 = op_local(t["args"][0]) if t.get("args") else None
+                if a0 is not None and (a0 in ct or any(x in ct for x in cba.ref_chain(a0))):
+                    badc.append((cb, i))
+        ok_ = not bad and not badc
+        wb_, wi_ = (b, bad[0]) if bad else (badc[0] if badc else (b, 0))
+        ctx.ob(rid, "%s|argument-vector-never-shrunk" % b.key, ok_, where=ctx.where(wb_, wi_) if not ok_ else b.span,
+               detail="every argument reaches the builder" if ok_ else
+               "%s removes entries from the argument vector before the builder has mapped them to records" % common.short(callee_paths(wb_.blocks[wi_]["term"])[0]))
     ctx.floor(rid, "commands examined", n, 2)
 
 
@@ -2087,6 +2110,80 @@ def setup_gets_the_validated_jobs_value(ctx, rid):
         ok = root in checked
         ctx.ob(rid, "%s|setup#%d|receives-the-checked-value" % (b.key, k), ok, where=ctx.where(b, i),
                detail="JobServer::setup(j) with the parsed and range-checked j" if ok else "the -j value is remapped between its range check and JobServer::setup")
+
+
+# ------------------------------------------------------------------------------------------------
+# R16.11  the write lock of the database is not held across a read of the script's data
+
+def no_stdin_read_under_transaction(ctx, rid):
+    ctx.rule(rid, "redo-stamp has read all of its standard input before it opens the state (ProcessState::init) and begins its IMMEDIATE transaction: the producer feeding the pipe may take arbitrarily long, and every other command on the project waits for that write lock - past the 60 s busy timeout it fails with `database is locked`")
+    prog = ctx.prog
+    b = prog.one(r"@bin::stamp::run")
+    ba = BA.of(b)
+    sin = ba.calls(r"std::io::stdio::stdin|std::io::stdin")
+    if not sin:
+        raise AnchorError("%s: %s does not take standard input" % (rid, b.key))
+    st = taint(b, seeds={b.blocks[c]["term"]["dest"]["l"] for c in sin}, mode="derived")
+    reads = [i for i in ba.calls(r"std::io::copy::copy|std::io::copy|.*::read_to_end|.*::read_to_string|(<.* as )?std::io::Read>?::read|.*::read_exact|.*::read_until|.*::read_line")
+             if any(op_local(a) is not None and (op_local(a) in st or any(x in st for x in ba.ref_chain(op_local(a)))) for a in b.blocks[i]["term"]["args"])]
+    ctx.floor(rid, "reads of standard input in redo-stamp", len(reads), 1)
+    opens = ba.calls(r"state::ProcessTransaction::new|state::ProcessState::init")
+    late = [r for r in reads if any(ba.path([o], [r], incl=True) is not None for o in opens)]
+    ctx.ob(rid, "%s|input-read-before-the-state-is-opened" % b.key, not late and bool(opens), where=ctx.where(b, late[0]) if late else b.span,
+           detail="standard input is consumed before ProcessState::init / the transaction" if not late else
+           "standard input is read while the state is open and the write transaction has begun: a slow producer holds up every other command on the project")
+
+
+# ------------------------------------------------------------------------------------------------
+# R18.16  names in records are the caller's spelling, resolved against the process's own cwd
+
+def record_name_operand_is_the_argument(ctx, rid):
+    ctx.rule(rid, "state::target_relpath hands the name it was given to state::relpath unchanged (relpath anchors a relative name at the working directory of the process, which is where a script that did `cd sub && redo-ifchange y` means it): re-anchoring it at the .do file's directory makes the record name another file, redo-log looks for `y` beside the parent target, stops with `not known to redo` or shows another target's log")
+    prog = ctx.prog
+    b = prog.one(r"state::target_relpath")
+    ba = BA.of(b)
+    rel = ba.calls(r"state::relpath")
+    if not rel:
+        raise AnchorError("%s: no relpath call in %s" % (rid, b.key))
+    from rules.C06 import backward_direct
+    for k, i in enumerate(rel):
+        a0 = op_local(b.blocks[i]["term"]["args"][0])
+        sl, org, _ = backward_direct(b, a0, depth=40) if a0 is not None else (set(), [], None)
+        from_param = any(1 <= x <= b.arg_count for x in sl)
+        other = [o for o in org if o[0] == "call"]
+        ok = from_param and not other
+        ctx.ob(rid, "%s|relpath#%d|name-operand-is-the-parameter" % (b.key, k), ok, where=ctx.where(b, i),
+               detail="relpath(t, target_dir) with the caller's t" if ok else
+               "the name is rewritten (%s) before relpath sees it" % (common.short(callee_paths(other[0][2])[0]) if other else "not the parameter"))
+
+
+# ------------------------------------------------------------------------------------------------
+# R18.17  one record = one write
+
+def record_written_in_one_piece(ctx, rid):
+    ctx.rule(rid, "the raw logger puts a line into the log with one write of the complete text (format first, then Write::write): formatting straight into the unbuffered file (write!/writeln! = Write::write_fmt) issues one write(2) per fragment, and a record written while a background process of the same script writes to the same log is cut in pieces that no longer parse - the nested target's lines are lost")
+    prog = ctx.prog
+    bodies = [b for k, b in sorted(prog.bodies.items()) if "logs::RawLog" in k]
+    if not ctx.floor(rid, "RawLog bodies", len(bodies), 1):
+        return
+    n, bad = 0, []
+    for b in bodies:
+        ba = BA.of(b)
+        ft = taint(b, src_place=lambda p_: any(f.startswith("logs::RawLog.") for f in place_fields(p_)), mode="direct")
+        for i in ba.all_calls():
+            t = b.blocks[i]["term"]
+            ps = callee_paths(t)
+            a0 = op_local(t["args"][0]) if t.get("args") else None
+            on_file = a0 is not None and (a0 in ft or any(x in ft for x in ba.ref_chain(a0)))
+            if not on_file:
+                continue
+            if any(re.search(r"Write>?::(write|write_all)$|io::Write::(write|write_all)$", q) for q in ps):
+                n += 1
+            if any(re.search(r"Write>?::write_fmt$|io::Write::write_fmt$", q) for q in ps):
+                bad.append((b, i))
+    ctx.floor(rid, "whole-line writes to the raw log", n, 1)
+    ctx.ob(rid, "RawLog|no-formatted-write-into-the-file", not bad, where=ctx.where(bad[0][0], bad[0][1]) if bad else bodies[0].span,
+           detail="lines reach the file through Write::write of the complete text" if not bad else "write!/writeln! formats straight into the log file: one write(2) per fragment")
 
 
 _BORROW_CACHE = {}
@@ -2166,19 +2263,20 @@ TABLE = {
             ("R14.7", borrow("C02", "R2.3", r"^(add_dep\||sql-literals-found)", "a re-declared ifcreate edge must replace last build's row and clear its deletion mark")),
             ("R14.6", borrow("C02", "R2.3", r"marked-edges-still-listed", "an ifcreate / always edge of an interrupted rebuild must still make the target dirty"))],
     "C09": [("R9.10", probe_forks_while_owning), ("R9.11", alarm_interrupts_blocking_read),
+            ("R9.12", borrow("C08", "R8.8", None, "a redo that leaves its passes without a token exits holding none: its parent re-creates one, the pool grows by one and the top-level self-test fails a build whose scripts all succeeded")),
             ("R9.8", borrow("C12", "R12.2", None, "a lock id that is not registered turns a cycle into an endless fcntl wait")),
             ("R9.9", borrow("C08", "R8.1", None, "a counter written outside the accounting functions breaks the top-level self-test: an all-success build exits 1"))],
     "C17": [("R17.6", ood_lists_every_nonclean), ("R17.7", check_never_refreshes_stamps), ("R17.9", listing_never_creates_state), ("R17.10", stat_treats_enotdir_as_missing)],
     "C18": [("R18.7", done_status_type_agrees), ("R18.8", seen_only_when_shown), ("R18.9", record_after_partial_line),
             ("R18.10", record_names_relative_to_target_dir), ("R18.11", non_record_line_echoed_whole),
-            ("R18.12", follower_reads_after_probe), ("R18.13", parse_keeps_text_verbatim), ("R18.14", record_content_never_panics), ("R18.15", log_read_tolerates_any_bytes)],
+            ("R18.12", follower_reads_after_probe), ("R18.13", parse_keeps_text_verbatim), ("R18.14", record_content_never_panics), ("R18.15", log_read_tolerates_any_bytes), ("R18.16", record_name_operand_is_the_argument), ("R18.17", record_written_in_one_piece)],
     "C15": [("R15.12", arguments_reach_builder_unfiltered), ("R15.7", key_never_bypasses_relpath), ("R15.8", relpath_is_componentwise)],
     "C10": [("R10.12", borrow("C04", "R4.4", r"tmp-name|same-tmp", "the stale-output removal before the fork must name the same file the script will be told to write ($3, beside the target): removing another path leaves the half-written output of a killed build in place, to be taken for this build's output")),
             ("R10.8", rename_inside_result_transaction), ("R10.14", schema_created_inside_transaction), ("R10.13", tmp_removal_copes_with_directory), ("R10.10", interrupted_creation_is_recoverable), ("R10.11", failed_marker_not_cleared_at_start),
             ("R10.9", borrow("C05", "R5.3", None, "a job that dies (non-zero or by signal) has its un-redeclared edges deleted by zap_deps2, so it must be marked failed in the same transaction or it looks clean after the kill"))],
-    "C12": [("R12.9", every_modified_dep_is_descended), ("R12.10", only_immediate_exit_becomes_job_result),
+    "C12": [("R12.12", arguments_reach_builder_unfiltered), ("R12.9", every_modified_dep_is_descended), ("R12.10", only_immediate_exit_becomes_job_result),
             ("R12.11", borrow("C13", "R13.3", r"argv\[0\.\.2\]", "a .do on the cycle must stop at the failing redo-ifchange (`sh -e`), or the entry target exits 0 although the cycle was detected below"))],
-    "C16": [("R16.7", state_dir_creation_is_idempotent), ("R16.9", probe_forks_while_owning),
+    "C16": [("R16.11", no_stdin_read_under_transaction), ("R16.7", state_dir_creation_is_idempotent), ("R16.9", probe_forks_while_owning),
             ("R16.8", borrow("C06", "R6.3", None, "a record read before waiting for another command's lock predates that command's commit: using it afterwards writes stale state over the other command's result"))],
 }
 
